@@ -392,6 +392,14 @@ def apply_group(repo, d):
             pos, bl = nth_call(body, callee, int(n))
             p = stmt_end_after(bl, pos) if kind == "after" else stmt_start_before(bl, pos)
             ins.append((p, "\n" + text + "\n"))
+        elif kind in ("aftertext", "beforetext"):
+            lit, n = arg.rsplit("#", 1)
+            bl = blank(body)
+            occ = [m.start() for m in re.finditer(re.escape(lit), body) if bl[m.start()] == body[m.start()]]
+            if len(occ) < int(n):
+                raise LostAnchor(f"anchor: text `{lit}` occurrence #{n} not found ({len(occ)})")
+            p = occ[int(n) - 1] + (len(lit) if kind == "aftertext" else 0)
+            ins.append((p, "\n" + text + "\n"))
         elif kind == "loop":
             p = nth_loop_brace(body, int(arg))
             ins.append((p, "\n" + text + "\n"))
@@ -456,6 +464,8 @@ def expand_template(repo, tmpl_text):
                     if arg == "entry": cur = ("entry", None)
                     elif arg.startswith("after="): cur = ("after", arg[6:])
                     elif arg.startswith("before="): cur = ("before", arg[7:])
+                    elif arg.startswith("beforetext="): cur = ("beforetext", arg[11:])
+                    elif arg.startswith("aftertext="): cur = ("aftertext", arg[10:])
                     else: raise LostAnchor(f"bad HINT {arg}")
                 elif k == "LOOP": cur = ("loop", arg)
                 elif k == "LOOPBODY": cur = ("loopbody", arg)
